@@ -32,6 +32,7 @@ type c28Case struct {
 	WatcherLate bool  `json:"watcher_started_after_lapse"`
 	Delete      bool  `json:"status_deleted_instead_of_expiring"`
 	Creator     bool  `json:"workload_created_before_lapse"`
+	Resume      bool  `json:"heartbeat_resumes_after_lapse,omitempty"`
 	Bound       int   `json:"preemption_bound"`
 	Choices     []int `json:"choices,omitempty"`
 }
@@ -90,15 +91,28 @@ func c28Scenario(cc *c28Case, snap *world.Snap) *schedScenario {
 			x.Data["lapse"] = x.Now()
 			x.mu.Unlock()
 			x.Event("agent deleted n1's status")
+			if cc.Resume {
+				// a flapping agent: the very next heartbeat arrives right after the lapse
+				_ = inst.Store.SetNodeStatus(ctx, n1, nodeTTL)
+				x.Event("agent reports n1 again")
+			}
 		} else {
 			x.mu.Lock()
 			x.Data["lapse"] = x.Now() + lapseAt
 			x.mu.Unlock()
+			if cc.Resume {
+				time.Sleep(lapseAt + time.Second)
+				_ = inst.Store.SetNodeStatus(ctx, n1, nodeTTL)
+				x.Event("agent reports n1 again")
+			}
 		}
-		// n2 keeps reporting
+		// n2 keeps reporting (and n1 too once its heartbeat has resumed: it must not lapse a second time)
 		for x.Now() < end {
 			time.Sleep(4 * time.Second)
 			_ = inst.Store.SetNodeStatus(ctx, n2, nodeTTL)
+			if cc.Resume {
+				_ = inst.Store.SetNodeStatus(ctx, n1, nodeTTL)
+			}
 		}
 	}})
 	if cc.Creator {
@@ -152,7 +166,7 @@ func c28Explore(t *testing.T, c *vcore.Ctx) {
 	if dir == "" {
 		dir = t.TempDir()
 	}
-	c.SetRule("agent (heartbeats n1,n2 TTL 10 s + workload statuses, then n1 lapses by expiry or deletion while n2 keeps reporting), optional creator (a workload on n1 before the lapse), real NodeStatusWatcher started before or after the lapse; all interleavings of their backend requests within the preemption bound; oracle 60 s after the lapse; non-trivial = schedules with at least one preemption")
+	c.SetRule("agent (heartbeats n1,n2 TTL 10 s + workload statuses, then n1 lapses by expiry or deletion while n2 keeps reporting; optionally n1's heartbeat resumes right after the lapse and stays), optional creator (a workload on n1 before the lapse), real NodeStatusWatcher started before or after the lapse; all interleavings of their backend requests within the preemption bound; oracle 60 s after the lapse; non-trivial = schedules with at least one preemption")
 	c.Assume("etcd = memetcd: the status key disappears exactly at lease expiry and the watch delivers the delete event; the active-watcher registration uses the real StartEphemeral")
 	b := world.NewBackend(dir, false)
 	defer b.Close()
@@ -184,6 +198,9 @@ func c28Explore(t *testing.T, c *vcore.Ctx) {
 		}
 	}
 	cases = append(cases, c28Case{Bound: bound})
+	// the heartbeat resumes right after the lapse: the workloads were unobserved for a while and must
+	// still be reported down (the agent does not re-report them in this scenario)
+	cases = append(cases, c28Case{Delete: true, Resume: true, Bound: bound}, c28Case{Resume: true, Bound: bound})
 	for i := range cases {
 		cc := cases[i]
 		if c.Expired() {
@@ -208,6 +225,9 @@ func c28Check(c *vcore.Ctx, b *world.Backend, cc *c28Case, x *schedRun, choices 
 	cls := "watcher-first"
 	if cc.WatcherLate {
 		cls = "watcher-after-lapse"
+	}
+	if cc.Resume {
+		cls += "/heartbeat-resumes"
 	}
 	if cc.Delete {
 		cls += "/status-deleted"
